@@ -269,7 +269,11 @@ def sibling_menu(family, c, t, menu):
 
 
 @functools.lru_cache(maxsize=None)
-def build_evaluator(family, c, t, menu, naming='descriptive'):
+def build_evaluator(family, c, t, menu, naming='descriptive', backend='default'):
+  if backend == 'debug':
+    # the documented eager backend (jit disabled, clients one after the other)
+    with fedjax.for_each_client_backend('debug'):
+      return fmodels.ModelEvaluator(build_model(family, c, t, menu, naming))
   return fmodels.ModelEvaluator(build_model(family, c, t, menu, naming))
 
 
@@ -294,12 +298,19 @@ merge_all = jax.jit(_merge_all)
 # ------------------------------------------------------------- case -> arrays
 
 
+def _scores(p):
+  """JSON scores -> float64 array; the string '-inf' (only ever in padding rows,
+  at the row's own target) is a logit of -inf."""
+  return np.asarray([[float(v) for v in r] if isinstance(r, list) else float(r)
+                     for r in p], dtype=np.float64)
+
+
 def row_arrays(family, row):
   """One example (JSON) -> dict of numpy features (no batch dimension)."""
   d = int(row['d'])
   out = {
       'y': np.asarray(row['y'], dtype=np.int32),
-      'pred': np.asarray(row['p'], dtype=np.float32) / np.float32(4.0),
+      'pred': _scores(row['p']).astype(np.float32) / np.float32(4.0),
   }
   for k, key in DOM_KEY.items():
     out[key] = np.asarray(d % k, dtype=np.int32)
@@ -313,7 +324,7 @@ def validate(case):
     raise ValueError(f'malformed case: {fam} C={c} T={t}')
   for row in list(case['examples']) + list(case['pads']):
     y = np.asarray(row['y'])
-    p = np.asarray(row['p'])
+    p = _scores(row['p'])
     want_y, want_p = ((), (c,)) if fam == 'cls' else ((t,), (t, c))
     if y.shape != want_y or p.shape != want_p or y.min() < 0 or y.max() >= c:
       raise ValueError(f'malformed example {row}')
@@ -349,7 +360,8 @@ def with_mask(case, feats, mask):
 def logit_span(case):
   vals = [0.0]
   for row in list(case['examples']) + list(case['pads']):
-    p = np.asarray(row['p'], dtype=np.float64) / 4.0
+    p = _scores(row['p']) / 4.0
+    p = p[np.isfinite(p)]
     vals.append(float(p.max() - p.min()) if p.size else 0.0)
   return max(vals) * max(1, case.get('T', 1))
 
@@ -585,7 +597,8 @@ def run_model_paths(case):
         model, None, dataset.padded_batch(
             batch_size=pb['batch_size'], num_batch_size_buckets=pb['buckets']))
   if 'evaluator' in case['via']:
-    evaluator = build_evaluator(fam, c, t, menu, naming)
+    evaluator = build_evaluator(fam, c, t, menu, naming,
+                                case.get('evaluator_backend', 'default'))
     rev = list(reversed(user_batches))
     if case.get('per_client_params'):
       out = list(evaluator.evaluate_per_client_params(
@@ -727,6 +740,16 @@ def partition_strategy(draw, family, c, t, nmax, force_empty=False):
       [0, 1, 2] + list(range(3, nmax + 1)) * 3))
   examples = [draw(example_strategy(family, c, t)) for _ in range(n)]
   pads = [draw(example_strategy(family, c, t)) for _ in range(draw(st.integers(1, 3)))]
+  if draw(st.integers(0, 3)) == 0:
+    # a padding row whose own statistics are not finite: its target class has
+    # logit -inf (probability 0), so its cross entropy is +inf.  A valid input
+    # of the metric; as a masked row it must not contribute anything.
+    row = pads[draw(st.integers(0, len(pads) - 1))]
+    if family == 'cls':
+      row['p'][row['y']] = '-inf'
+    else:
+      for pos, y in enumerate(row['y']):
+        row['p'][pos][y] = '-inf'
   order = list(draw(st.permutations(list(range(n)))))
   style = draw(st.sampled_from(['prefix', 'prefix', 'any', 'any', 'tight']))
   batches = []
@@ -796,6 +819,8 @@ def model_case_strategy(draw, tier, force_empty=False):
                                       ['evaluate_model', 'evaluator']]))
   case['per_client_params'] = draw(st.booleans())
   case['as_generator'] = draw(st.booleans())
+  if 'evaluator' in case['via'] and draw(st.integers(0, 3)) == 0:
+    case['evaluator_backend'] = 'debug'
   if draw(st.integers(0, 2)) == 0:
     # position-only metric names, and another model with the same names but
     # other metrics is evaluated on the same batches first
@@ -847,7 +872,7 @@ def stat_case_strategy(draw, tier):
 
 
 def _row_nonzero(row):
-  return bool(np.asarray(row['y']).any() or np.asarray(row['p']).any())
+  return bool(np.asarray(row['y']).any() or _scores(row['p']).any())
 
 
 def eval_labels(case):
@@ -868,6 +893,8 @@ def eval_labels(case):
     ls += ['via:' + v for v in case['via']]
     if case.get('sibling_first'):
       ls.append('same_names_other_metrics_model_evaluated_first')
+    if case.get('evaluator_backend') == 'debug':
+      ls.append('evaluator_on_debug_backend')
     if case.get('padded_batch') and case['examples']:
       ls.append('via:ClientDataset.padded_batch')
     if case['family'] == 'seq':
@@ -883,6 +910,9 @@ def eval_labels(case):
                     for b in case['batches'] for r in b if r < 0)
   if pad_nonzero:
     ls.append('padding_content_nonzero')
+  if any('-inf' in (r['p'] if not isinstance(r['p'][0], list) else sum(r['p'], []))
+         for r in case['pads']) and any(x < 0 for b in case['batches'] for x in b):
+    ls.append('padding_row_with_infinite_own_statistic')
   if any(all(r < 0 for r in b) for b in case['batches']):
     ls.append('all_padding_batch')
   if any(any(r < 0 for r in b) and any(r >= 0 for r in b) and
